@@ -370,6 +370,9 @@ def round_kani(S: Sources, errs: list, tag: str) -> KaniSpec:
             "std::sync::Barrier::wait -> logger that returns at once; std::hash::RandomState::new -> zero keys",
         ], timeout_s=1500)
     spec.tag = tag
+    # the harnesses depend on kani::stub (clock, fences, Barrier::wait): a native playback build has none of them,
+    # so the concrete values are not replayed natively (the failed assertion names the violated rule)
+    spec.no_playback = True
     return spec
 
 
